@@ -442,10 +442,10 @@ Proof.
     rewrite ?liq_set_liq, ?nthq_upd_other by auto; split; reflexivity.
 Qed.
 
-Lemma moisture_wf_lemma n mws R P w mc by_mass mwc strict :
-  wf_strm n R -> wf_strm n P ->
+Lemma moisture_wf_lemma n n' mws R P w mc by_mass mwc strict :
+  wf_strm n R -> wf_strm n' P ->
   let m := adjust_moisture mws R P w mc by_mass mwc strict in
-  wf_strm n (m_ret m) /\ wf_strm n (m_perm m).
+  wf_strm n (m_ret m) /\ wf_strm n' (m_perm m).
 Proof.
   intros WR WP. cbv zeta. moist_cases; split; repeat apply wf_set_liq; assumption.
 Qed.
@@ -465,21 +465,21 @@ Proof.
          field; repeat split; first [assumption | apply MW; reflexivity]).
 Qed.
 
-Lemma moisture_conserves_lemma n mws R P w mc by_mass mwc strict :
-  wf_strm n R -> wf_strm n P -> (w < n)%nat ->
+Lemma moisture_conserves_lemma n n' mws R P w mc by_mass mwc strict :
+  wf_strm n R -> wf_strm n' P -> (w < n)%nat -> (w < n')%nat ->
   (by_mass = true -> ~ nthq mws w == 0) ->
   let m := adjust_moisture mws R P w mc by_mass mwc strict in
   forall i, nthq (total (m_ret m)) i + nthq (total (m_perm m)) i == nthq (total R) i + nthq (total P) i.
 Proof.
-  intros WR WP W MW m i.
-  destruct (moisture_wf_lemma n mws R P w mc by_mass mwc strict WR WP) as [WR' WP'].
+  intros WR WP W W' MW m i.
+  destruct (moisture_wf_lemma n n' mws R P w mc by_mass mwc strict WR WP) as [WR' WP'].
   destruct (moisture_frame_lemma mws R P w mc by_mass mwc strict) as (OR & OP & FR).
   fold m in WR', WP', OR, OP, FR.
-  rewrite (total_nth n (m_ret m)), (total_nth n (m_perm m)), (total_nth n R), (total_nth n P) by assumption.
+  rewrite (total_nth n (m_ret m)), (total_nth n' (m_perm m)), (total_nth n R), (total_nth n' P) by assumption.
   rewrite OR, OP.
   destruct (Nat.eq_dec i w) as [->|Hi].
   - pose proof (moisture_w_lemma mws R P w mc by_mass mwc strict MW) as H.
-    destruct WR as [WR1 _], WP as [WP1 _]. rewrite WR1, WP1 in H. specialize (H W W).
+    destruct WR as [WR1 _], WP as [WP1 _]. rewrite WR1, WP1 in H. specialize (H W W').
     cbv zeta in H. fold m in H. lra.
   - destruct (FR i Hi) as [A B]. rewrite A, B. lra.
 Qed.
@@ -488,8 +488,8 @@ Definition water_target (mws : vec) (R : strm) (w : nat) (mc mw : Q) : Q :=
   (fmass mws R - mw * nthq (total R) w) * mc / (1 - mc) / mw.
 
 (* flows of the moisture chemical after the transfer *)
-Lemma moisture_shift_values n mws R P w mc (by_mass : bool) mwc :
-  wf_strm n R -> wf_strm n P -> (w < n)%nat -> ~ 1 - mc == 0 ->
+Lemma moisture_shift_values n n' mws R P w mc (by_mass : bool) mwc :
+  wf_strm n R -> wf_strm n' P -> (w < n)%nat -> (w < n')%nat -> ~ 1 - mc == 0 ->
   let mw := if by_mass then nthq mws w else mwc in
   ~ mw == 0 ->
   let change := water_target mws R w mc mw - nthq (total R) w in
@@ -498,7 +498,7 @@ Lemma moisture_shift_values n mws R P w mc (by_mass : bool) mwc :
   nthq (liq (snd RP)) w == nthq (liq P) w - change /\
   fst RP = set_liq R w (nthq (liq (fst RP)) w) /\ snd RP = set_liq P w (nthq (liq (snd RP)) w).
 Proof.
-  intros [WR1 WR2] [WP1 WP2] W MC mw MW change RP.
+  intros [WR1 WR2] [WP1 WP2] W W' MC mw MW change RP.
   unfold RP, moisture_shift, change, water_target, mw in *. clear RP change.
   destruct by_mass; cbn [fst snd]; rewrite !liq_set_liq;
     rewrite !nthq_upd_same_lt by (rewrite ?upd_length; lia).
@@ -506,8 +506,8 @@ Proof.
   - repeat split; try reflexivity; field; split; assumption.
 Qed.
 
-Lemma moisture_reached_lemma n mws R P w mc (by_mass : bool) mwc strict :
-  wf_strm n R -> wf_strm n P -> length mws = n -> (w < n)%nat ->
+Lemma moisture_reached_lemma n n' mws R P w mc (by_mass : bool) mwc strict :
+  wf_strm n R -> wf_strm n' P -> length mws = n -> (w < n)%nat -> (w < n')%nat ->
   ~ 1 - mc == 0 ->
   let mw := if by_mass then nthq mws w else mwc in
   0 < mw -> nthq mws w == mw ->
@@ -518,9 +518,9 @@ Lemma moisture_reached_lemma n mws R P w mc (by_mass : bool) mwc strict :
   nthq (total (m_ret m)) w == target /\
   nthq (total (m_ret m)) w * mw == mc * fmass mws (m_ret m).
 Proof.
-  intros WR WP LM W MC mw MWpos MWeq target ENOUGH m.
+  intros WR WP LM W W' MC mw MWpos MWeq target ENOUGH m.
   assert (MW0 : ~ mw == 0) by lra.
-  destruct (moisture_shift_values n mws R P w mc by_mass mwc WR WP W MC MW0) as (VR & VP & SR & SP).
+  destruct (moisture_shift_values n n' mws R P w mc by_mass mwc WR WP W W' MC MW0) as (VR & VP & SR & SP).
   fold mw in VR, VP. fold target in VR, VP.
   unfold m, adjust_moisture.
   destruct (qzerob (1 - mc)) eqn:E; [apply qzerob_true in E; contradiction|].
@@ -562,8 +562,8 @@ Proof.
   apply Qmult_le_0_compat; [apply Qmult_le_0_compat|]; assumption.
 Qed.
 
-Lemma moisture_nonneg_lemma n mws R P w mc (by_mass : bool) mwc strict :
-  wf_strm n R -> wf_strm n P -> length mws = n -> (w < n)%nat ->
+Lemma moisture_nonneg_lemma n n' mws R P w mc (by_mass : bool) mwc strict :
+  wf_strm n R -> wf_strm n' P -> length mws = n -> (w < n)%nat -> (w < n')%nat ->
   0 <= mc < 1 ->
   let mw := if by_mass then nthq mws w else mwc in
   0 < mw -> nthq mws w == mw ->
@@ -573,13 +573,13 @@ Lemma moisture_nonneg_lemma n mws R P w mc (by_mass : bool) mwc strict :
   m_err m = None ->
   forall i, 0 <= nthq (liq (m_ret m)) i /\ 0 <= nthq (liq (m_perm m)) i.
 Proof.
-  intros WR WP LM W MC mw MWpos MWeq NL NO OW NP NM m OK i.
+  intros WR WP LM W W' MC mw MWpos MWeq NL NO OW NP NM m OK i.
   destruct (Nat.eq_dec i w) as [->|Hi].
   2:{ destruct (moisture_frame_lemma mws R P w mc by_mass mwc strict) as (_ & _ & FR).
       destruct (FR i Hi) as [A B]. fold m in A, B. rewrite A, B. split; [apply NL|apply NP]. }
   assert (MC0 : ~ 1 - mc == 0) by lra.
   assert (MW0 : ~ mw == 0) by lra.
-  destruct (moisture_shift_values n mws R P w mc by_mass mwc WR WP W MC0 MW0) as (VR & VP & SR & SP).
+  destruct (moisture_shift_values n n' mws R P w mc by_mass mwc WR WP W W' MC0 MW0) as (VR & VP & SR & SP).
   fold mw in VR, VP.
   pose proof (water_target_nonneg n mws R w mc mw WR LM MC MWpos MWeq NL NO NM) as TG.
   assert (TW : nthq (total R) w == nthq (liq R) w).
@@ -589,7 +589,7 @@ Proof.
   destruct (moisture_shift mws R P w mc by_mass mwc) as [R1 P1] eqn:ES. cbn [fst snd] in *.
   destruct WR as [WR1 WR2], WP as [WP1 WP2].
   assert (L1 : length (liq R1) = n) by (rewrite SR, liq_set_liq, upd_length; exact WR1).
-  assert (L2 : length (liq P1) = n) by (rewrite SP, liq_set_liq, upd_length; exact WP1).
+  assert (L2 : length (liq P1) = n') by (rewrite SP, liq_set_liq, upd_length; exact WP1).
   destruct (qltb (nthq (liq P1) w) 0) eqn:E1.
   - destruct (match strict with Some b => b | None => true end); cbn [m_err m_ret m_perm]; [discriminate|].
     intros _. rewrite !liq_set_liq. rewrite !nthq_upd_same_lt by lia.
@@ -626,8 +626,8 @@ Proof.
   pose proof (mix_split_conserves_lemma n ins split Hl Hs i) as C.
   destruct (mix_split_lengths n ins split Hl Hs) as [L1 L2].
   destruct (mix_and_split n ins split) as [top bottom]. cbn [fst snd] in *.
-  rewrite (moisture_conserves_lemma n mws (single top) (single bottom) w mc by_mass mwc strict
-             (wf_single n top L1) (wf_single n bottom L2) W MW i).
+  rewrite (moisture_conserves_lemma n n mws (single top) (single bottom) w mc by_mass mwc strict
+             (wf_single n top L1) (wf_single n bottom L2) W W MW i).
   rewrite !total_single. exact C.
 Qed.
 
@@ -1507,3 +1507,137 @@ Proof.
     + cbn [p_phi p_bot]. intros _. rewrite scatter_c_in by assumption. specialize (N i). lra.
 Qed.
 End PartitionStale.
+
+(* ================================================================ split_to into an outlet of another package *)
+
+Definition pos_inj (pos : list (option nat)) : Prop :=
+  forall k1 k2 j, nth_error pos k1 = Some (Some j) -> nth_error pos k2 = Some (Some j) -> k1 = k2.
+
+Lemma pos_inj_tail p pos : pos_inj (p :: pos) -> pos_inj pos.
+Proof. intros H k1 k2 j A B. specialize (H (S k1) (S k2) j A B). lia. Qed.
+
+Lemma other_put_length v pos vals : length (other_put v pos vals) = length v.
+Proof.
+  revert v vals; induction pos as [|p pos IH]; intros v [|x vals]; simpl; auto.
+  destruct p as [j|]; rewrite IH; auto. destruct (qzerob x); auto. apply upd_length.
+Qed.
+
+Lemma other_put_untouched v pos vals j :
+  (forall k, nth_error pos k <> Some (Some j)) -> nthq (other_put v pos vals) j = nthq v j.
+Proof.
+  revert v vals; induction pos as [|p pos IH]; intros v [|x vals] H; simpl; auto.
+  assert (T : forall k, nth_error pos k <> Some (Some j)) by (intros k; exact (H (S k))).
+  destruct p as [j0|]; rewrite IH by exact T; auto.
+  destruct (qzerob x); auto. apply nthq_upd_other. intros E; subst j0. apply (H 0%nat). reflexivity.
+Qed.
+
+Lemma other_put_at v pos vals k j :
+  pos_inj pos -> nth_error pos k = Some (Some j) -> (k < length vals)%nat -> (j < length v)%nat ->
+  nthq (other_put v pos vals) j = if qzerob (nthq vals k) then nthq v j else nthq vals k.
+Proof.
+  revert v vals k; induction pos as [|p pos IH]; intros v [|x vals] k INJ E K J; simpl in *;
+    try lia; try (destruct k; discriminate).
+  destruct k as [|k]; simpl in E.
+  - inversion E; subst p. rewrite nthq_cons0.
+    rewrite other_put_untouched.
+    + destruct (qzerob x); [reflexivity|apply nthq_upd_same_lt; exact J].
+    + intros k' E'. specialize (INJ 0%nat (S k') j eq_refl E'). discriminate.
+  - rewrite nthq_consS. destruct p as [j0|].
+    + rewrite (IH _ vals k (pos_inj_tail _ _ INJ) E) by (try lia; destruct (qzerob x); rewrite ?upd_length; exact J).
+      destruct (qzerob (nthq vals k)); [|reflexivity].
+      destruct (qzerob x); [reflexivity|]. apply nthq_upd_other.
+      intros E0; subst j0. specialize (INJ 0%nat (S k) j eq_refl E). discriminate.
+    + apply (IH v vals k (pos_inj_tail _ _ INJ) E); [lia|exact J].
+Qed.
+
+Lemma other_lookup_none pos vals k :
+  other_lookup pos vals = true -> nth_error pos k = Some None -> (k < length vals)%nat -> nthq vals k == 0.
+Proof.
+  revert vals k; induction pos as [|p pos IH]; intros [|x vals] k H E K; simpl in *; try lia;
+    try (destruct k; discriminate).
+  apply andb_true_iff in H. destruct H as [H1 H2].
+  destruct k as [|k]; simpl in E.
+  - inversion E; subst p. rewrite nthq_cons0. rewrite orb_false_r in H1. apply qzerob_true; exact H1.
+  - rewrite nthq_consS. apply IH; auto. lia.
+Qed.
+
+(* mix_and_split with the bottom outlet on another package: whatever that outlet held before, afterwards it holds
+   exactly the bottom share of each chemical at that chemical's place and nothing anywhere else *)
+Lemma mix_split_other_lemma n ins split m pos :
+  (forall v, In v ins -> length v = n) -> length split = n -> length pos = n -> pos_inj pos ->
+  (forall k j, nth_error pos k = Some (Some j) -> (j < m)%nat) ->
+  let o := mix_and_split_other n ins split m pos in
+  o_err o = None ->
+  (forall i, nthq (o_top o) i == nthq split i * colsum ins i) /\
+  (forall i j, nth_error pos i = Some (Some j) -> nthq (o_top o) i + nthq (o_bot o) j == colsum ins i) /\
+  (forall i, nth_error pos i = Some None -> nthq (o_top o) i == colsum ins i) /\
+  (forall j, (forall k, nth_error pos k <> Some (Some j)) -> nthq (o_bot o) j == 0) /\
+  length (o_bot o) = m.
+Proof.
+  intros Hl Hs Hp INJ RNG. cbv zeta. unfold mix_and_split_other.
+  pose proof (mix_split_conserves_lemma n ins split Hl Hs) as C.
+  pose proof (mix_split_value_lemma n ins split Hl Hs) as V.
+  destruct (mix_split_lengths n ins split Hl Hs) as [L1 L2].
+  unfold mix_and_split in *. destruct (split_to (vsum n ins) split) as [values dummy]. cbn [fst snd] in *.
+  destruct (other_lookup pos dummy) eqn:LK; cbn [o_err o_top o_bot]; [|discriminate].
+  intros _. split; [exact V|]. split; [|split; [|split]].
+  - intros i j E.
+    assert (Hi : (i < n)%nat) by (rewrite <- Hp; apply nth_error_Some; congruence).
+    rewrite (other_put_at (vzero m) pos dummy i j INJ E) by (rewrite ?vzero_length; try lia; eapply RNG; exact E).
+    rewrite nthq_vzero. specialize (C i).
+    destruct (qzerob (nthq dummy i)) eqn:Z; [apply qzerob_true in Z; lra|lra].
+  - intros i E.
+    assert (Hi : (i < n)%nat) by (rewrite <- Hp; apply nth_error_Some; congruence).
+    pose proof (other_lookup_none pos dummy i LK E ltac:(lia)) as Z. specialize (C i). lra.
+  - intros j H. rewrite other_put_untouched by exact H. rewrite nthq_vzero. lra.
+  - rewrite other_put_length. apply vzero_length.
+Qed.
+
+Lemma colsum_overflow n ins i : (forall v, In v ins -> length v = n) -> (n <= i)%nat -> colsum ins i == 0.
+Proof.
+  intros Hl Hi. induction ins as [|v ins IH]; simpl; [lra|].
+  rewrite nthq_overflow by (rewrite (Hl v) by (left; reflexivity); exact Hi).
+  rewrite IH; [lra|]. intros u Hu; apply Hl; right; exact Hu.
+Qed.
+
+(* identity-prefix package (the outlet's package appends chemicals): the same indices on both sides *)
+Lemma mix_moisture_other_conserves_lemma n mws ins split m pos w mc by_mass mwc strict :
+  (forall v, In v ins -> length v = n) -> length split = n -> length pos = n -> (n <= m)%nat ->
+  (forall i, (i < n)%nat -> nth_error pos i = Some (Some i)) -> (w < n)%nat ->
+  (by_mass = true -> ~ nthq mws w == 0) ->
+  let r := mix_and_split_with_moisture_other n mws ins split m pos w mc by_mass mwc strict in
+  m_err r <> Some EKey ->
+  forall i, nthq (total (m_ret r)) i + nthq (total (m_perm r)) i == colsum ins i.
+Proof.
+  intros Hl Hs Hp NM ID W MW. cbv zeta. unfold mix_and_split_with_moisture_other.
+  assert (INJ : pos_inj pos).
+  { intros k1 k2 j A B.
+    assert (K1 : (k1 < n)%nat) by (rewrite <- Hp; apply nth_error_Some; congruence).
+    assert (K2 : (k2 < n)%nat) by (rewrite <- Hp; apply nth_error_Some; congruence).
+    rewrite (ID k1 K1) in A. rewrite (ID k2 K2) in B. congruence. }
+  assert (RNG : forall k j, nth_error pos k = Some (Some j) -> (j < m)%nat).
+  { intros k j A. assert (K1 : (k < n)%nat) by (rewrite <- Hp; apply nth_error_Some; congruence).
+    rewrite (ID k K1) in A. inversion A; subst. lia. }
+  pose proof (mix_split_other_lemma n ins split m pos Hl Hs Hp INJ RNG) as SP. cbv zeta in SP.
+  destruct (mix_split_lengths n ins split Hl Hs) as [LT _].
+  assert (LTOP : length (o_top (mix_and_split_other n ins split m pos)) = n).
+  { unfold mix_and_split_other. unfold mix_and_split in LT.
+    destruct (split_to (vsum n ins) split) as [values dummy]. cbn [fst] in LT.
+    destruct (other_lookup pos dummy); exact LT. }
+  destruct (o_err (mix_and_split_other n ins split m pos)) as [e|] eqn:EO.
+  - cbn [m_err]. intros NE. exfalso. apply NE. f_equal.
+    revert EO. unfold mix_and_split_other. destruct (split_to (vsum n ins) split) as [values dummy].
+    destruct (other_lookup pos dummy); cbn [o_err]; intros H; inversion H; reflexivity.
+  - intros _ i. destruct (SP eq_refl) as (_ & S2 & _ & S4 & LB).
+    set (o := mix_and_split_other n ins split m pos) in *.
+    rewrite (moisture_conserves_lemma n m mws (single (o_top o)) (single (o_bot o)) w mc by_mass mwc strict
+               (wf_single n _ LTOP) (wf_single m _ LB) W ltac:(lia) MW i).
+    rewrite !total_single.
+    destruct (Nat.lt_ge_cases i n) as [Hi|Hi].
+    + apply S2. apply ID. exact Hi.
+    + rewrite (nthq_overflow (o_top o)) by lia.
+      rewrite S4.
+      * rewrite colsum_overflow with (n := n); [lra|exact Hl|exact Hi].
+      * intros k E. assert (K1 : (k < n)%nat) by (rewrite <- Hp; apply nth_error_Some; congruence).
+        rewrite (ID k K1) in E. injection E as E'. lia.
+Qed.
